@@ -83,7 +83,11 @@ def ptfs_stage(prop, cases, name="native", kind="native", **kw):
 
 
 def c05_stages(tier):
-    return [ptfs_stage("C05", 2_048 if tier == "quick" else 50_000, timeout=3600, crash_is_violation=True)]
+    st = [ptfs_stage("C05", 2_048 if tier == "quick" else 50_000, timeout=3600, crash_is_violation=True)]
+    if tier == "thorough":
+        # the same monitors with the crate and harness built under AddressSanitizer
+        st.append(ptfs_stage("C05", 2048, name="asan", kind="asan", core=False, timeout=3600, crash_is_violation=True))
+    return st
 
 
 def c06_stages(tier):
@@ -93,7 +97,11 @@ def c06_stages(tier):
 
 
 def c08_stages(tier):
-    return [ptfs_stage("C08", 2_000 if tier == "quick" else 60_000, timeout=3600, crash_is_violation=True)]
+    st = [ptfs_stage("C08", 2_000 if tier == "quick" else 60_000, timeout=3600, crash_is_violation=True)]
+    if tier == "thorough":
+        # the same monitors with the crate and harness built under AddressSanitizer
+        st.append(ptfs_stage("C08", 2000, name="asan", kind="asan", core=False, timeout=3600, crash_is_violation=True))
+    return st
 
 
 def c09_stages(tier):
@@ -105,12 +113,16 @@ def c09_stages(tier):
 
 def c10_stages(tier):
     # model-vs-kernel: the reference union model against the kernel's own overlayfs on the same universes (oracle self-check, crate not involved)
-    return [ptfs_stage("C10", 480 if tier == "quick" else 12_000, timeout=3600, crash_is_violation=True),
+    return [ptfs_stage("C10", 480 if tier == "quick" else 6_000, timeout=3600, crash_is_violation=True),
             ptfs_stage("C10", 160 if tier == "quick" else 4_000, name="model-vs-kernel", core=False, timeout=3600, args={"kernel": 1})]
 
 
 def c11_stages(tier):
-    return [ptfs_stage("C11", 480 if tier == "quick" else 12_000, timeout=3000, crash_is_violation=True)]
+    st = [ptfs_stage("C11", 480 if tier == "quick" else 6_000, timeout=3600, crash_is_violation=True)]
+    if tier == "thorough":
+        # the same monitors with the crate and harness built under AddressSanitizer
+        st.append(ptfs_stage("C11", 320, name="asan", kind="asan", core=False, timeout=3600, crash_is_violation=True))
+    return st
 
 
 def c20_stages(tier):
@@ -123,15 +135,27 @@ def c20_stages(tier):
 
 
 def c15_stages(tier):
-    return [ptfs_stage("C15", 4_000 if tier == "quick" else 100_000, timeout=3600, crash_is_violation=True)]
+    st = [ptfs_stage("C15", 4_000 if tier == "quick" else 100_000, timeout=3600, crash_is_violation=True)]
+    if tier == "thorough":
+        # the same monitors with the crate and harness built under AddressSanitizer
+        st.append(ptfs_stage("C15", 4000, name="asan", kind="asan", core=False, timeout=3600, crash_is_violation=True))
+    return st
 
 
 def c16_stages(tier):
-    return [ptfs_stage("C16", 2_400 if tier == "quick" else 60_000, timeout=3600, crash_is_violation=True)]
+    st = [ptfs_stage("C16", 2_400 if tier == "quick" else 60_000, timeout=3600, crash_is_violation=True)]
+    if tier == "thorough":
+        # the same monitors with the crate and harness built under AddressSanitizer
+        st.append(ptfs_stage("C16", 1200, name="asan", kind="asan", core=False, timeout=3600, crash_is_violation=True))
+    return st
 
 
 def c18_stages(tier):
-    return [ptfs_stage("C18", 3_000 if tier == "quick" else 80_000, timeout=3600, crash_is_violation=True)]
+    st = [ptfs_stage("C18", 3_000 if tier == "quick" else 80_000, timeout=3600, crash_is_violation=True)]
+    if tier == "thorough":
+        # the same monitors with the crate and harness built under AddressSanitizer
+        st.append(ptfs_stage("C18", 3000, name="asan", kind="asan", core=False, timeout=3600, crash_is_violation=True))
+    return st
 
 
 def c12_stages(tier):
